@@ -75,6 +75,11 @@ pub fn run(sc: &Value) -> Vec<Value> {
                                         Ok((n, c)) => outcome.push(json!({"name": nm, "len": n, "crc": hex32(c), "mode": f.unix_mode()})),
                                         Err(e) => {
                                             anyerr = true;
+                                            // a caller may well read again after an error: that must not panic either
+                                            let mut more = [0u8; 8];
+                                            for _ in 0..3 {
+                                                let _ = f.read(&mut more);
+                                            }
                                             if first_err.is_empty() {
                                                 first_err = format!("read({}): {}", i, e);
                                             }
